@@ -279,8 +279,8 @@ theorem cancelRequest_none {s : St} {id : Nat} {s' : St} (h : cancelRequest s id
 theorem insertRequest_cases (s : St) (now : Nat) (r : DReq) :
     ∃ s', insertRequest s now r = some s' ∧
       ((∃ site, s'.poisoned = true ∧ view s' = { view s with poisoned := true, rel := .panic (tid s) site :: (view s).rel }) ∨
-       (findEntry s r.id = none ∧ s'.poisoned = s.poisoned ∧ ∃ key rem, view s' =
-          { view s with inflight := (view s).inflight ++ [{ id := r.id, cid := r.cid, ctx := r.ctx, timerKey := key, remainder := rem }] })) := by
+       (findEntry s r.id = none ∧ s'.poisoned = s.poisoned ∧ ∃ key rem due, view s' =
+          { view s with inflight := (view s).inflight ++ [{ id := r.id, cid := r.cid, ctx := r.ctx, timerKey := key, remainder := rem, dueAt := due }] })) := by
   -- (`split` on the function's own `match`, not `cases` on a generalised result: the kernel must not be made to
   -- evaluate `DelayQ.insert … (clampTimeout …)`)
   unfold insertRequest
@@ -292,9 +292,9 @@ theorem insertRequest_cases (s : St) (now : Nat) (r : DReq) :
     · exact ⟨_, rfl, Or.inl ⟨_, rfl, by rw [view_emit_rel _ _ rfl]; rfl⟩⟩
     · rename_i q key w hq
       cases w with
-      | false => exact ⟨_, rfl, Or.inr ⟨hf', rfl, key, _, rfl⟩⟩
+      | false => exact ⟨_, rfl, Or.inr ⟨hf', rfl, key, _, _, rfl⟩⟩
       | true =>
-        refine ⟨_, rfl, Or.inr ⟨hf', ?_, key, (r.ctx.deadline - now) - clampTimeout (r.ctx.deadline - now), ?_⟩⟩
+        refine ⟨_, rfl, Or.inr ⟨hf', ?_, key, (r.ctx.deadline - now) - clampTimeout (r.ctx.deadline - now), now + clampTimeout (r.ctx.deadline - now), ?_⟩⟩
         · simp
         · simp only [↓reduceIte]; rw [view_wakeDispatch]; rfl
 
@@ -420,7 +420,7 @@ theorem pollWriteRequest_pres {s : St} (h : P none (view s)) (now : Nat) :
     obtain ⟨s2, hins, hcase⟩ := insertRequest_cases s1 now r
     rw [hins]
     simp only
-    rcases hcase with ⟨site, hpois, hv⟩ | ⟨hfe, hpois, key, rem, hv⟩
+    rcases hcase with ⟨site, hpois, hv⟩ | ⟨hfe, hpois, key, rem, due, hv⟩
     · simp only [hpois, ↓reduceIte]
       exact ⟨hv ▸ hP.panic _ site hi1, fun _ => Or.inr hpois⟩
     · have hi2 : P (some r.id) (view s2) := by
@@ -429,7 +429,7 @@ theorem pollWriteRequest_pres {s : St} (h : P none (view s)) (now : Nat) :
           obtain ⟨c, hc, hrx⟩ := osIsClosed_view hcl
           rw [hv1] at hc
           exact ⟨c, hc, hrx⟩
-        exact hP.popInsert (v := v1) key rem hv1P hv1pq hnc
+        exact hP.popInsert (v := v1) key rem due hv1P hv1pq hnc
       by_cases hp2 : s2.poisoned = true
       · simp only [hp2, ↓reduceIte]
         exact ⟨hP.drop_x hi2 (Or.inl hp2), fun _ => Or.inr hp2⟩
@@ -438,7 +438,7 @@ theorem pollWriteRequest_pres {s : St} (h : P none (view s)) (now : Nat) :
         rcases ht : tSend s2 (.request r.id r.ctx.deadline r.ctx.trace r.body) with ⟨s3, ok⟩
         rw [ht] at hts
         simp only at hts ⊢
-        have hmem : ({ id := r.id, cid := r.cid, ctx := r.ctx, timerKey := key, remainder := rem } : Entry) ∈ (view s2).inflight := by
+        have hmem : ({ id := r.id, cid := r.cid, ctx := r.ctx, timerKey := key, remainder := rem, dueAt := due } : Entry) ∈ (view s2).inflight := by
           rw [hv]; simp
         have hcall : ∃ c, (view s2).get r.cid = some c ∧ c.rxClosed = false ∧ r.body = c.body := by
           obtain ⟨c, hc, hrx⟩ := osIsClosed_view hcl
@@ -454,11 +454,11 @@ theorem pollWriteRequest_pres {s : St} (h : P none (view s)) (now : Nat) :
         | false =>
           simp only [Bool.false_eq_true, ↓reduceIte] at hts ⊢
           refine ⟨?_, fun h => by cases h⟩
-          have hinf3 : s3.inflight = s1.inflight ++ [{ id := r.id, cid := r.cid, ctx := r.ctx, timerKey := key, remainder := rem }] := by
+          have hinf3 : s3.inflight = s1.inflight ++ [{ id := r.id, cid := r.cid, ctx := r.ctx, timerKey := key, remainder := rem, dueAt := due }] := by
             have : (view s3).inflight = (view s2).inflight := by rw [hts]
-            have h2 : (view s2).inflight = (view s1).inflight ++ [{ id := r.id, cid := r.cid, ctx := r.ctx, timerKey := key, remainder := rem }] := by rw [hv]
+            have h2 : (view s2).inflight = (view s1).inflight ++ [{ id := r.id, cid := r.cid, ctx := r.ctx, timerKey := key, remainder := rem, dueAt := due }] := by rw [hv]
             exact this.trans h2
-          have hf3 : findEntry s3 r.id = some { id := r.id, cid := r.cid, ctx := r.ctx, timerKey := key, remainder := rem } := by
+          have hf3 : findEntry s3 r.id = some { id := r.id, cid := r.cid, ctx := r.ctx, timerKey := key, remainder := rem, dueAt := due } := by
             unfold findEntry at hfe ⊢
             rw [hinf3, List.find?_append, hfe]
             simp
@@ -558,16 +558,16 @@ section generic
 variable {P : Option Nat → View → Prop} (hP : PresD P)
 include hP
 
-theorem rearmWith_pres {x : Option Nat} {s : St} (h : P x (view s)) (id t : Nat)
-    (r : DelayQ × DelayQ.InsertRes × Bool) : P x (view (rearmWith s id t r).st) := by
+theorem rearmWith_pres {x : Option Nat} {s : St} (h : P x (view s)) (id t due : Nat)
+    (r : DelayQ × DelayQ.InsertRes × Bool) : P x (view (rearmWith s id t due r).st) := by
   unfold rearmWith; split
   · show P x (view (emit _ _))
     rw [view_emit_rel _ _ rfl]
     exact hP.panic (v := view s) (tid s) _ h
   · show P x (view (if _ then _ else _))
     split
-    · rw [view_wakeDispatch]; exact hP.infRearm id _ t h
-    · exact hP.infRearm id _ t h
+    · rw [view_wakeDispatch]; exact hP.infRearm id _ t due h
+    · exact hP.infRearm id _ t due h
 
 theorem expireWith_pres {x : Option Nat} {s : St} (h : P x (view s)) (now : Nat) (r : DelayQ × DelayQ.PollRes) :
     P x (view (expireWith s now r).st) := by
@@ -577,7 +577,7 @@ theorem expireWith_pres {x : Option Nat} {s : St} (h : P x (view s)) (now : Nat)
     · rename_i en hf
       obtain ⟨hmem, hid⟩ := findEntry_some hf
       split
-      · exact rearmWith_pres hP h _ _ _
+      · exact rearmWith_pres hP h _ _ _ _
       · show P x (view (osSend _ _ _))
         rw [view_osSend', ← hid]
         have := hP.completeN (v := view s) h hmem .deadline rfl false (tid s) ""
